@@ -12,3 +12,5 @@ for c in "$@"; do
 done
 H=$(echo -n "$D" | sha1sum | cut -c1-8)
 rm -rf "$D" /verif/.build/*-$H-* /verif/.build/*-$H
+# leave the generated Lean definitions as /repo's (the runs above regenerated them from the scratch tree)
+cd /verif && python3 -c "from vf import core; core.run_translators(core.all_translators())"
